@@ -105,6 +105,7 @@ PLAN = {
     "C11": {
         "level": "proof",
         "contracts": ["contracts.evaluation", "contracts.constraints"],
+        "bounded": ["bounded.c11"],
         "lemmas": True,
     },
     "C02": {
@@ -296,7 +297,10 @@ MANIFEST_TEXT = {
         "text": "Memo soundness decomposed into proved obligations: key completeness (get_hash covers root, tree, scope "
                 "content, locals content), every value stored in self.cache carries the verdict of its key and the "
                 "representation invariant (memo invariant, per override), no fitness() writes the caller's dicts (read "
-                "frame), and Evaluator.evaluate_individual returns the stored tuple on a hit without yielding.",
+                "frame), and Evaluator.evaluate_individual returns the stored tuple on a hit without yielding. Bounded half (not "
+                "counted as proved): long-lived constraint objects of 7 specs (incl. computed repetition bounds, nested quantifiers, "
+                "raising expressions) evaluated repeatedly and interleaved over a pool of trees, each outcome compared with that of "
+                "brand-new objects.",
         "note": "That equal keys imply equal arguments (no 64-bit hash collision) is an explicit assumption "
                 "`hash_key_faithful`; tree-hash staleness is the subject of C10; determinism of user Python assumed.",
         "technique": "contract-based deductive verification: own VC generator over the real source, z3+cvc5",
